@@ -273,21 +273,24 @@ theorem pointsym_dict_roundtrip {K : Type} [Field K] [LinearOrder K] [IsStrictOr
   · have hneg : det3 (fun i j => - R i j) < 0 := by rw [det3_neg]; linarith
     simp only [PSym.ofMatrix, PSym.asDict, if_true, hneg, decide_true, neg_neg]
 
-/-- T5b.  Re-generating a group from its own full element list adds nothing and keeps the order: the closure
-    loop returns the list itself after one pass (for every product `*`, every equality test, every closed list
-    shorter than the loop bound). -/
+/-- T5b.  Re-generating a group from its own full element list adds nothing and keeps the order: the generators
+    are read unchanged (they are pairwise different) and the closure loop returns the list itself after one pass —
+    for every product `*`, every equality test, every closed list shorter than the loop bound. -/
 theorem pointgroup_closure_fixed {G : Type} (mul : G → G → G) (eqv : G → G → Bool) (l : List G)
+    (hdistinct : l.Pairwise (fun y x => eqv x y = false))
     (hclosed : ∀ a ∈ l, ∀ b ∈ l, l.any (fun x => eqv (mul a b) x) = true)
     (fuel k : Nat) (hf : l.length < fuel) :
-    closure mul eqv fuel (k + 1) l = some l :=
-  closure_closed_aux mul eqv l hclosed fuel k hf
+    generate mul eqv fuel (k + 1) l = some l := by
+  unfold generate
+  rw [dedupGens_fixed eqv l hdistinct]
+  exact closure_closed_aux mul eqv l hclosed fuel k hf
 
 /-- non-vacuity: C4 × time reversal generated from two generators is closed (8 elements), and closing it
     again returns the same list -/
 example :
     let g := [[0, -1, 0, 1, 0, 0, 0, 0, 1, 0], [1, 0, 0, 0, 1, 0, 0, 0, 1, 1]]
-    ∃ l, closure mulI (fun a b => a == b) 1000 64 g = some l ∧ l.length = 8 ∧
-      closure mulI (fun a b => a == b) 1000 64 l = some l := by
+    ∃ l, generate mulI (fun a b => a == b) 1000 64 (g ++ g) = some l ∧ l.length = 8 ∧
+      generate mulI (fun a b => a == b) 1000 64 l = some l := by
   refine ⟨_, rfl, ?_, ?_⟩ <;> decide +kernel
 
 end WB.C18
